@@ -210,12 +210,21 @@ def documents(ctx):
     two_stages = ctx.flag('loop_spans_two_stages')
     extra = ctx.flag('extra_independent_component')
     cond_on = ctx.choice('condition_component', ['stop', 'work'])
+    twice = ctx.flag('binding_used_twice_in_arguments')
     comps = [
-        {'name': 'work', 'command': {'executable': 'echo', 'arguments': 'number:output'}, 'references': ['number:output']},
+        {'name': 'work', 'command': {'executable': 'echo', 'arguments': 'number:output' + (' and number:output' if twice else '')},
+         'references': ['number:output']},
         {'name': 'stop', 'stage': 1 if two_stages else 0,
          'command': {'executable': 'echo', 'arguments': ('stage0.work:output' if two_stages else 'work:output')},
          'references': ['stage0.work:output' if two_stages else 'work:output']},
     ]
+    both = ctx.flag('component_using_binding_and_its_current_producer')
+    if both:
+        # consumes the loop-carried value (previous iteration's stop) and the current iteration's stop
+        sref = 'stage1.stop:output' if two_stages else 'stop:output'
+        comps.append({'name': 'post', 'stage': 1 if two_stages else 0,
+                      'command': {'executable': 'echo', 'arguments': 'number:output %s' % sref},
+                      'references': ['number:output', sref]})
     if extra:
         # an independent looped component whose name starts with the name of the condition producer
         comps.append({'name': cond_on + '_more', 'command': {'executable': 'echo', 'arguments': 'hi'}, 'references': []})
@@ -232,7 +241,8 @@ def documents(ctx):
                                                                'arguments': 'stage1.work:ref stage1.work:loopref'},
          'references': ['stage1.work:ref', 'stage1.work:loopref']},
     ]}
-    shape = {'loop_binding': with_loop_binding, 'two_stages': two_stages, 'extra': extra, 'condition': cond_on,
+    shape = {'loop_binding': with_loop_binding, 'two_stages': two_stages, 'extra': extra, 'condition': cond_on, 'twice': twice,
+             'both': both,
              'outside_stage': outside_stage}
     return main, dw, shape
 
@@ -264,8 +274,8 @@ def body(ctx):
         shutil.rmtree(d, ignore_errors=True)
     g.rootStorage = _Storage()
     extra_name = shape['condition'] + '_more'
-    looped = ['work', 'stop'] + ([extra_name] if shape['extra'] else [])
-    stage_of = {'work': 1, 'stop': 2 if shape['two_stages'] else 1, extra_name: 1}
+    looped = ['work', 'stop'] + ([extra_name] if shape['extra'] else []) + (['post'] if shape['both'] else [])
+    stage_of = {'work': 1, 'stop': 2 if shape['two_stages'] else 1, extra_name: 1, 'post': 2 if shape['two_stages'] else 1}
     dw_name = 'stage1.loop'
     for k in range(0, K + 1):
         if k > 0:
@@ -292,6 +302,19 @@ def body(ctx):
                       (shape, k, stop, sorted(g.graph.predecessors(stop))))
             conf = g.configurationForNode(work, raw=False)
             ctx.check(conf['variables'].get('loopIteration') == i, 'every instance knows its iteration number', (shape, work))
+            carried = 'stage0.source' if (i == 0 or not shape['loop_binding']) else 'stage%d.%d#stop' % (stage_of['stop'], i - 1)
+            toks = [FlowIR.ParseDataReferenceFull(t, 1) for t in conf['command']['arguments'].split() if ':' in t]
+            ctx.check(toks and all('stage%d.%s' % (t[0], t[1]) == carried for t in toks),
+                      'every occurrence of a binding in the arguments is rewritten to the bound producer', (shape, k, work, conf['command']['arguments']))
+            if shape['both']:
+                post = 'stage%d.%d#post' % (stage_of['post'], i)
+                pconf = g.configurationForNode(post, raw=False)
+                ptoks = ['stage%d.%s' % t[:2] for t in [FlowIR.ParseDataReferenceFull(t, stage_of['post']) for t in pconf['command']['arguments'].split() if ':' in t]]
+                ctx.check(ptoks == [carried, stop], 'a component using a loop-carried input and the current producer gets both references right',
+                          (shape, k, post, pconf['command']['arguments'], [carried, stop]))
+                ctx.check(set(g.graph.predecessors(post)) == {carried, stop}, 'its predecessors are the previous and the current iteration',
+                          (shape, k, post, sorted(g.graph.predecessors(post))))
+                ctx.witness('binding_and_current_producer_checked')
         # placeholders, state, reference resolution
         ph = g._placeholders['stage1.work']
         ctx.check(ph['latest'] == 'stage1.%d#work' % k, 'latest instance is the numerically highest iteration',
@@ -349,7 +372,7 @@ def main(tier, seed, only=None):
                      'WorkflowGraph._createCompleteGraph', 'flowir.package_document_load']
     rep.bounds = {'E3': 'iteration numbers 0 <= i < j <= 999 as decimal strings, component names add / a.b / x-1; 4 sort sites',
                   'E1': 'iterations k = 0..K checked after every step, K in 11..12 (quick) / 1..12 (thorough), document shapes: loop binding yes/no, loop over 1 or 2 stages, '
-                        'extra independent looped component, condition produced by either component'}
+                        'extra independent looped component (named with the condition producer as prefix), condition produced by either component, binding used twice in the arguments, a component using both the loop-carried binding and its current producer'}
     rep.outside = ['controller-driven instantiation under concurrency', 'nested loops', 'replication inside loops beyond replicate: 1',
                    'more than 12 iterations on the real graph (ordering for up to 999 is covered by the lemmas)']
     rep.assumptions = ['rootStorage replaced by a stub mapping (stage, name) to a path', 'package written to a scratch directory '
@@ -357,7 +380,7 @@ def main(tier, seed, only=None):
     rep.explanation = ('E3: sort keys lifted from the AST of the real functions, order-preservation over symbolic iteration numbers decided '
                        'by z3 (strings+LIA) and cross-checked by cvc5; E1: bounded symbolic execution (symx/z3) of the real graph over symbolic '
                        'document shapes and iteration count')
-    rep.required_witnesses = ['ten_or_more_iterations', 'loop_carried_input_checked']
+    rep.required_witnesses = ['ten_or_more_iterations', 'loop_carried_input_checked', 'binding_and_current_producer_checked']
     if not only or 'lemmas' in only:
         ordering_lemmas(rep, tier)
     if not only or 'graph' in only:
